@@ -392,3 +392,10 @@ SUBS = [
     Sub("contour", strat_contour, run_contour, quick=480, thorough=6000, about="cl handed to iminuit.mncontour / ContoursProfiler level"),
     Sub("arrows", strat_arrows, run_arrows, quick=1600, thorough=30000, about="arrow specs of profile(..., cl/low/high, arrows=True) on analytic quadratic cost"),
 ]
+
+
+def extra(tier, seed):
+    """thorough tier: coverage-guided campaign (atheris / libFuzzer) over the same strategy and oracle, see kverif/fuzz.py"""
+    from ..fuzz import thorough_extra
+
+    return thorough_extra(PROPERTY, [("pure", 40000, 16)], tier, seed)
